@@ -108,8 +108,9 @@ PutProperty == \E x \in Targets, p \in PropChoices :
 DelProperty == \E x \in Targets : \E i \in 1..Len(PropsOf(heap[x])) :
   Step(Op("delprop", x, <<PropsOf(heap[x])[i].attr, 0>>),
        [heap EXCEPT ![x] = RemoveProp(@, PropsOf(heap[x])[i].attr)], NoOutcome)
-(* properties.update({...}): the mapping is filled without going through __setitem__ (the   *)
-(* property is bound to its name only when the element is next used); same configuration    *)
+(* properties.update({...}) followed by the first use of the element: the mapping is filled  *)
+(* without going through __setitem__ and the property is bound to its name when the element *)
+(* is next used (the harness makes one validation call); same configuration as PutProp      *)
 UpdateChoices == { Prop("z", "z", TRUE, StringE), Prop("level_", "level", FALSE, Mk("Integer", [default |-> JInt(1)])) }
 UpdateProperty == \E x \in Targets, p \in UpdateChoices :
   Step(Op("updateprop", x, p), [heap EXCEPT ![x] = PutProp(@, p)], NoOutcome)
